@@ -29,8 +29,8 @@ MANIFEST = {
                       "scheduling point; each trace is replayed step by step on the compiled Lean model"),
         "text": ("Theorems (Props.lean, axiom-audited on every run): the lock-free ring is FIFO / hands every ticket over at most once for every capacity and thread count "
                  "(closed ring system and, by a proved simulation, the queue inside the full pool model); a worker never reads a raw slot; exactly-once / argument integrity / record lifetime (no fault) / token conservation and the "
-                 "completion handshake (join after completion, result, flags, future destroyed only when unused) over all schedules of the full model; deadlock freedom of the repaired "
-                 "full model (`no_stuck`: in every reachable state with an unfinished thread some thread can step); the repaired FastSignal never loses a set and the repaired "
+                 "completion handshake (join after completion, result, flags, future destroyed only when unused) over all schedules of the full model; deadlock freedom (`no_stuck`) and the liveness clause `join_eventually` (every weakly fair run terminates with all joins returned and every call executed exactly once) of the repaired "
+                 "full model; the repaired FastSignal never loses a set and the repaired "
                  "sleep/wake protocol has no lost wake-up for any number of consumers/suppliers (abstract protocol system); negation witnesses (kernel-checked schedules) that the "
                  "ORIGINAL code deadlocks (defect D17 on the full model; D17 and the swallowed wake-up on the protocol).  Tie to the code on every run: the real thread pool "
                  "(private ThreadPool built with queue sizes 1/2/4/8 and thread limits by #including Future.cpp) is run under deviation-bounded exhaustive and random schedules; "
@@ -40,11 +40,8 @@ MANIFEST = {
         "note": ("Modelled, not verified: the hand translation of the C++ into the model (validated by the step-by-step replay, not proved); sequentially consistent atomics; the "
                  "simulated POSIX semantics (mutex, condition variable with spurious wake-ups, create/join, virtual clock) is an assumption shared by scheduler and model; scheduling "
                  "points of the implementation run are atomic operations and pthread calls only (plain volatile reads are not separately interleaved in the run, they are in the "
-                 "theorems); usize wrap-around outside.  OPEN (stated in Props.lean, not proved): `join_eventually` under weak fairness; proved of it on the FULL model of the repaired code: `join_eventually_partial` / `terminal_state_is_complete` (a state in which nothing can step has every thread finished and every call executed and freed exactly once), its deadlock-freedom core "
-                 "`no_stuck` (unconditional: whenever a thread is unfinished some thread can step; worker/producer/join/shutdown sides, spawn arithmetic, token conservation, "
-                 "Signal-layer progress) and the safety half `join_after_completion`; missing: the ranking argument under fairness; the scheduler verdict, the "
-                 "exhaustive model exploration of small configurations and the random model walks are tests.  The model mirrors the REPAIRED code "
-                 "(fixes/future/0001-0004, fixes/sync/0001); on the unrepaired tree the check reports the defects with concrete failing schedules."),
+                 "theorems); usize wrap-around outside.  Nothing OPEN: `join_eventually` (every weakly fair run reaches a state where every thread has finished and every call was executed and freed exactly once), `fair_runs_terminate`, `progresses_wf`, `no_stuck`, `terminal_state_is_complete` are proved on the FULL model of the repaired code; the scheduler verdict, the exhaustive model exploration of small configurations and the random model walks are additional tests.  The model mirrors the REPAIRED code "
+                 "(fixes/future/0001-0005, fixes/sync/0001); on the unrepaired tree the check reports the defects with concrete failing schedules."),
         "design_ref": "DESIGN.md 3/C10",
     }
 }
@@ -772,9 +769,7 @@ def report(ctx, exe, repaired, stats, found, diffs, distinct, samples, xres, wre
         break
 
 
-OPEN_STATEMENTS = [
-    "join_eventually: under weak fairness every join of the repaired full model eventually returns (stated in Props.lean, comment block OPEN). Proved of it: `join_eventually_partial` (every maximal finite schedule ends with all joins returned and every call executed exactly once = terminal_state_is_complete), its deadlock-freedom core `no_stuck` (unconditional) and the safety half `join_after_completion`; also proved: `fair_run_never_stalls` and the reduction `join_eventually_partial_budget` (fairness/spinning discharged, straight-line code and CAS retries measured); missing: a budget function for the ten cross-thread loop heads (remaining pushes/pops + wake credits), i.e. that every weakly fair schedule is finite (CAS retry loops, spin lock and re-check loops are lock-free, not wait-free)",
-]
+OPEN_STATEMENTS = []      # join_eventually is proved outright (Props.lean) since round 2 / fix 0005
 
 
 def replay(ctx, path):
